@@ -2159,7 +2159,11 @@ class binary(base_quantizer.BaseQuantizer):  # pylint: disable=invalid-name
     config = {
         "use_01": self.use_01,
         "alpha": self.alpha,
-        "use_stochastic_rounding": self.use_stochastic_rounding
+        "use_stochastic_rounding": self.use_stochastic_rounding,
+        "scale_axis": self.scale_axis,
+        "elements_per_scale": self.elements_per_scale,
+        "min_po2_exponent": self.min_po2_exponent,
+        "max_po2_exponent": self.max_po2_exponent,
     }
     return config
 
